@@ -190,7 +190,9 @@ func (g *sqlGen) identText(role string, pool []string, nonEmpty bool) string {
 	case 4: // back quoted (back quotes are kept in the name)
 		return "`" + strings.ReplaceAll(g.quotedContent(role+"B", 0), "`", "") + "`"
 	case 5: // special first character
-		switch rapid.IntRange(0, 4).Draw(g.t, role+"S") {
+		switch rapid.IntRange(0, 5).Draw(g.t, role+"S") {
+		case 5: // ident : L_ID '.' L_ID  (a quoted first part keeps the T_DOT token apart)
+			return "'" + rapid.SampledFrom([]string{"a", "x y", ""}).Draw(g.t, role+"S0") + "'." + rapid.SampledFrom([]string{"b", "sum", "c.d"}).Draw(g.t, role+"S00")
 		case 0:
 			return "_" + rapid.SampledFrom([]string{"a1", "tmp", "_x", "9"}).Draw(g.t, role+"S1")
 		case 1:
